@@ -1358,6 +1358,29 @@ func (g *Gen) execInstr(in ssa.Instruction) {
 			panic(unsupported("go statement `go %s` (list it as `assume pure go %s` to ignore the spawned goroutine)", name, name))
 		}
 		g.addAssumption("goroutine `go " + name + "` not executed (spawn ignored)")
+		// A spawn is a call site `go NAME#N` for `callsite ... requires` clauses: "this goroutine is started here,
+		// under this condition, with these arguments" (arg0.. = the call's arguments; closures: captured values are
+		// reachable by their names). If the spawn disappears from the code the clause is reported as lost.
+		if g.fc != nil && g.fc.CallSites != nil {
+			gname := "go " + name
+			if g.callCount == nil {
+				g.callCount = map[string]int{}
+			}
+			if ord, ok := g.siteOrdinal(x); ok {
+				g.callCount[gname] = ord
+			} else {
+				g.callCount[gname]++
+			}
+			site := fmt.Sprintf("%s#%d", gname, g.callCount[gname])
+			for k, cs := range g.fc.CallSites {
+				if k == site || "go "+lastPkgElem(name)+fmt.Sprintf("#%d", g.callCount[gname]) == k || (curPkgName != "" && strings.ReplaceAll("go "+lastPkgElem(name), curPkgName+".", "")+fmt.Sprintf("#%d", g.callCount[gname]) == k) {
+					g.markSite("callsite " + k)
+					if len(cs.Requires) > 0 {
+						g.callSiteRequires(cs, site, x.Common(), x.Pos())
+					}
+				}
+			}
+		}
 	case *ssa.Send:
 		g.addAssumption("channel operations (send, receive, select) are treated as scheduling points without effect on verified state: a receive yields an arbitrary value, a select takes any branch; blocking, ordering and termination are not modelled")
 	case *ssa.Select:
